@@ -1,0 +1,80 @@
+//go:build verif
+
+package yoda
+
+import (
+	"time"
+
+	abci "github.com/cometbft/cometbft/abci/types"
+	rpcclient "github.com/cometbft/cometbft/rpc/client"
+
+	"cosmossdk.io/log"
+
+	"github.com/cosmos/cosmos-sdk/crypto/keyring"
+	sdk "github.com/cosmos/cosmos-sdk/types"
+
+	band "github.com/bandprotocol/chain/v3/app"
+	"github.com/bandprotocol/chain/v3/pkg/filecache"
+	"github.com/bandprotocol/chain/v3/x/oracle/types"
+	"github.com/bandprotocol/chain/v3/yoda/executor"
+)
+
+// This file exposes yoda's request handling to the verification harness (build tag "verif").
+// It only wires dependencies; the handlers that run are the unmodified ones.
+
+// VerifOptions are the injected dependencies of a yoda context.
+type VerifOptions struct {
+	App             *band.BandApp
+	Client          rpcclient.Client
+	Validator       sdk.ValAddress
+	Keyring         keyring.Keyring
+	Keys            []*keyring.Record
+	ChainID         string
+	Executor        executor.Executor
+	FileCacheDir    string
+	MaxTry          uint64
+	RPCPollInterval time.Duration
+	PendingBuffer   int
+}
+
+// VerifNewContext builds a Context the way runCmd does, with injected dependencies. It also sets
+// the package globals the handlers read (keyring and chain id).
+func VerifNewContext(o VerifOptions) *Context {
+	kb = o.Keyring
+	cfg.ChainID = o.ChainID
+	return &Context{
+		bandApp:            o.App,
+		client:             o.Client,
+		validator:          o.Validator,
+		keys:               o.Keys,
+		executor:           o.Executor,
+		fileCache:          filecache.New(o.FileCacheDir),
+		maxTry:             o.MaxTry,
+		rpcPollInterval:    o.RPCPollInterval,
+		pendingMsgs:        make(chan ReportMsgWithKey, o.PendingBuffer),
+		freeKeys:           make(chan int64, len(o.Keys)),
+		keyRoundRobinIndex: -1,
+		pendingRequests:    make(map[types.RequestID]bool),
+	}
+}
+
+// VerifNewLogger returns a logger that only lets errors through.
+func VerifNewLogger() *Logger {
+	filter, _ := log.ParseLogLevel("error")
+	return NewLogger(filter)
+}
+
+// VerifHandleTransaction runs the unmodified transaction handler.
+func VerifHandleTransaction(c *Context, l *Logger, tx abci.TxResult) { handleTransaction(c, l, tx) }
+
+// VerifHandleRequest runs the unmodified request handler.
+func VerifHandleRequest(c *Context, l *Logger, id types.RequestID) { handleRequest(c, l, id) }
+
+// VerifPending is the queue of reports waiting to be submitted.
+func VerifPending(c *Context) <-chan ReportMsgWithKey { return c.pendingMsgs }
+
+// VerifMsg returns the report message of a queued entry.
+func (r ReportMsgWithKey) VerifMsg() *types.MsgReportData { return r.msg }
+
+// VerifMarkPending marks a request as pending at start-up.
+func VerifMarkPending(c *Context, id types.RequestID) { c.pendingRequests[id] = true }
